@@ -22,6 +22,7 @@ use sched::Lane;
 fn main() {
     let argv: Vec<String> = std::env::args().collect();
     if argv.len() < 2 { eprintln!("usage: rmv <PROP> [options]"); std::process::exit(2) }
+    if argv[1] == "noop" { return }   // (lets `cargo miri run` build the interpreter's copy of the harness once, before the shards start)
     let mut args = Args {
         prop: argv[1].clone(), lane: Lane::Ser, tier: "quick".into(), seed: 1, shard: 0, nshards: 1, secs: 10.0, runs: u64::MAX,
         out: String::new(), only: None, replay: None, flavor: "fast".into(), extra: Vec::new(),
